@@ -55,6 +55,43 @@ theorem closed_sound (A : Auto σ L) (B : Auto τ L) (alphabet : List UInt8) (R 
       simpa using hc
     · intro d hd; exact hw d (by simp [hd])
 
+/-- Like `closed`, but the successor on the `B` side is computed once per byte class
+    `(representative, members)`.  Sound when `B` cannot tell the members of a class from its
+    representative (hypothesis `hB` of `closedBy_sound`). -/
+def closedBy (A : Auto σ L) (B : Auto τ L) (alphabet : List UInt8)
+    (classes : List (UInt8 × List UInt8)) (R : List (σ × τ)) : Bool :=
+  let H : Std.HashSet (σ × τ) := Std.HashSet.ofList R
+  (alphabet.all fun c => classes.any fun kc => kc.2.contains c) &&
+  R.all fun p =>
+    decide (A.label p.1 = B.label p.2) &&
+      classes.all fun kc =>
+        let q' := B.step p.2 kc.1
+        kc.2.all fun c => H.contains (A.step p.1 c, q')
+
+theorem closedBy_sound (A : Auto σ L) (B : Auto τ L) (alphabet : List UInt8)
+    (classes : List (UInt8 × List UInt8)) (R : List (σ × τ))
+    (h : closedBy A B alphabet classes R = true)
+    (hB : ∀ p ∈ R, ∀ kc ∈ classes, ∀ c ∈ kc.2, B.step p.2 c = B.step p.2 kc.1)
+    (a : σ) (b : τ) (hab : (a, b) ∈ R)
+    (w : List UInt8) (hw : ∀ c ∈ w, c ∈ alphabet) :
+    A.label (A.run a w) = B.label (B.run b w) := by
+  simp only [closedBy, Bool.and_eq_true, List.all_eq_true, List.any_eq_true,
+    decide_eq_true_eq] at h
+  obtain ⟨hcover, hR⟩ := h
+  induction w generalizing a b with
+  | nil => exact (hR _ hab).1
+  | cons c w ih =>
+    simp only [Auto.run_cons]
+    apply ih
+    · obtain ⟨kc, hkc, hc⟩ := hcover c (hw c (by simp))
+      have hc' : c ∈ kc.2 := by simpa using hc
+      have := (hR _ hab).2 kc hkc c hc'
+      rw [Std.HashSet.contains_ofList] at this
+      have hm : (A.step a c, B.step b kc.1) ∈ R := by simpa using this
+      rw [hB _ hab kc hkc c hc']
+      exact hm
+    · intro d hd; exact hw d (by simp [hd])
+
 end
 
 /-- all byte values below `n` -/
@@ -79,7 +116,7 @@ structure ExploreResult (σ τ : Type) where
 /-- breadth-first product exploration from the given start pairs.  Each queue entry carries
     the index of its parent and the byte that led to it, so a shortest distinguishing word can
     be reconstructed. -/
-partial def explore (A : Auto σ L) (B : Auto τ L) (alphabet : List UInt8)
+partial def explore (A : Auto σ L) (B : Auto τ L) (classes : List (UInt8 × List UInt8))
     (starts : List (σ × τ)) (budget : Nat) : ExploreResult σ τ := Id.run do
   let mut seen : Std.HashSet (σ × τ) := {}
   let mut queue : Array (σ × τ) := #[]
@@ -108,12 +145,14 @@ partial def explore (A : Auto σ L) (B : Auto τ L) (alphabet : List UInt8)
     if queue.size > budget then
       exhausted := true
       break
-    for c in alphabet do
-      let q := (A.step p.1 c, B.step p.2 c)
-      if !seen.contains q then
-        seen := seen.insert q
-        queue := queue.push q
-        parent := parent.push (i, c)
+    for kc in classes do
+      let qb := B.step p.2 kc.1
+      for c in kc.2 do
+        let q := (A.step p.1 c, qb)
+        if !seen.contains q then
+          seen := seen.insert q
+          queue := queue.push q
+          parent := parent.push (i, c)
     i := i + 1
   return { rel := queue, cex := cex, exhausted := exhausted }
 
